@@ -40,7 +40,7 @@ func (c *c01) Meta() engine.Meta {
 		Rule: "default = dense 8-block history (all 8 tx types, validator change, passing governance proposal, unbonding+refund, rewards+withdraw, contract deploy/call); " +
 			"deviation slots: every tx position (drop / replace by one of 24 menu templates, 12 of them failing), an append slot per block, per-block absent-signer pattern, evidence entry, proposer; " +
 			"genesis variants g3 (3 validators, neutral limiter), g1 (1 validator), g4L (4 equal validators, limiter 33/33), g3s (small-stake history: power-1 stakes, evidence, jailing). " +
-			"Each history runs on replica A and B (separate data directories, B additionally restarted once at a case-dependent height; thorough: a third replica in another OS process with TZ/GOMAXPROCS changed); compared per call: DeliverTx code/data/gas, EndBlock validator updates (ordered), Commit app hash, Info. " +
+			"Each history runs on replica A and on replica B in ANOTHER OS PROCESS (separate data directory, TZ changed, restarted once at a case-dependent height; thorough: a third, never restarted replica); compared per call: DeliverTx code/data/gas, EndBlock validator updates (ordered), Commit app hash, Info. " +
 			"distinct_nontrivial = histories with at least one successful and one failed transaction.",
 		Assumptions: []string{
 			"Go's map iteration order cannot be enumerated from outside the runtime: each history is executed on 2 (thorough: 3) replicas, so an order dependence is exercised many thousand times but SAMPLED, not enumerated; the exhaustive dimension is the history",
@@ -75,6 +75,13 @@ func (c *c01) Prepare(tier string, seed int64) error {
 		core := func(s, ch int) bool {
 			sl := ss.slots[s]
 			if tier == "thorough" && v == "g3" {
+				// all pairs over: append slots (first 16 templates), tx slots (drop / first 8 replacements), every env slot
+				switch sl.kind {
+				case slotTx:
+					return ch <= 9
+				case slotAppend:
+					return ch <= 16
+				}
 				return true
 			}
 			// quick: pairs only over append/evidence/absent/proposer slots and the first 8 menu entries
@@ -126,7 +133,8 @@ func (c *c01) Eval(req json.RawMessage) json.RawMessage {
 	var cs hcase
 	_ = json.Unmarshal(req, &cs)
 	h, _ := c.history(cs)
-	r := sim.Run(tmpRoot(), h, &sim.Hooks{NoStates: true})
+	rsAt := int64(1 + int(shortHash(string(req))[0])%(len(h.Blocks)-1))
+	r := sim.Run(tmpRoot(), h, &sim.Hooks{NoStates: true, RestartAfter: map[int64]bool{rsAt: true}})
 	defer r.Cleanup()
 	return sim.MustJSON(r.Chain.ConsensusLog())
 }
@@ -185,12 +193,26 @@ func (c *c01) RunDesc(desc json.RawMessage) engine.Result {
 		res.Err = a.Err
 		return res
 	}
-	// replica B lives in another directory AND in two successive application instances: it is
-	// restarted once, after a height derived from the case (a different process lifetime must not matter).
-	rsAt := int64(1 + int(shortHash(string(desc))[0])%(len(h.Blocks)-1))
-	b := sim.Run(tmpRoot(), h, &sim.Hooks{NoStates: true, RestartAfter: map[int64]bool{rsAt: true}})
-	defer b.Cleanup()
-	la, lb := a.Chain.ConsensusLog(), b.Chain.ConsensusLog()
+	// replica B lives in ANOTHER OS PROCESS (helper with another TZ), in another directory, and in two
+	// successive application instances: it is restarted once, after a height derived from the case.
+	la := a.Chain.ConsensusLog()
+	if c.pool == nil {
+		_ = os.Setenv("TZ", "Asia/Seoul")
+		p, err := engine.NewPool("C01", 1)
+		if err != nil {
+			res.Err = "cannot start the replica process: " + err.Error()
+			return res
+		}
+		c.pool = p
+	}
+	outs, err := c.pool.Map([]json.RawMessage{desc})
+	if err != nil {
+		c.pool = nil
+		res.Err = "replica process: " + err.Error()
+		return res
+	}
+	var lb []string
+	_ = json.Unmarshal(outs[0], &lb)
 	res.Transitions = len(la) + len(lb)
 	for _, st := range a.States {
 		res.States = append(res.States, st.Hash())
@@ -208,29 +230,17 @@ func (c *c01) RunDesc(desc json.RawMessage) engine.Result {
 			Detail: fmt.Sprintf("replica A and %s differ at consensus call #%d:\n A: %s\n %s: %s\n history: %v", who, i, x, who, y, descr), Case: desc})
 	}
 	if i, x, y := firstDiff(la, lb); i >= 0 {
-		report(i, x, y, "B")
+		report(i, x, y, "B(other process, restarted once)")
 	}
 	if c.tier == "thorough" && len(res.Violations) == 0 {
-		if c.pool == nil {
-			_ = os.Setenv("TZ", "Asia/Seoul")
-			p, err := engine.NewPool("C01", 1)
-			if err == nil {
-				c.pool = p
-			}
-		}
-		if c.pool != nil {
-			outs, err := c.pool.Map([]json.RawMessage{desc})
-			if err == nil {
-				var lc []string
-				_ = json.Unmarshal(outs[0], &lc)
-				res.Transitions += len(lc)
-				res.Count("third_replica_other_process", 1)
-				if i, x, y := firstDiff(la, lc); i >= 0 {
-					report(i, x, y, "C(other process)")
-				}
-			} else {
-				c.pool = nil
-			}
+		// a third replica in this process, never restarted
+		cr := sim.Run(tmpRoot(), h, &sim.Hooks{NoStates: true})
+		lc := cr.Chain.ConsensusLog()
+		cr.Cleanup()
+		res.Transitions += len(lc)
+		res.Count("third_replica", 1)
+		if i, x, y := firstDiff(la, lc); i >= 0 {
+			report(i, x, y, "C(same process)")
 		}
 	}
 	if len(cs.Devs) <= 1 {
